@@ -151,7 +151,36 @@ def check(case, ctx):
                         continue
                     if not check_flat(ctx, label, res, m, esub, ins, "flatten" if ins is not None else "flatten-default-insert"):
                         continue
-                    # unflatten restores the member axes; coordinates preserved
+                    # unflatten restores the member axes; coordinates preserved - also when the grouped array has been copied,
+                    # indexed along another dimension or passed through newaxis / squeeze in between (it still is the same
+                    # grouped array: same dims, labels and values)
+                    mid = rng.choice([None, None, 'copy', 'deepcopy', 'index-other', 'newaxis-squeeze', 'fullslice', 'pickle'])
+                    gname_ = ",".join(esub)
+                    others_ = [d_ for d_ in res.dims if d_ != gname_]
+                    if mid == 'index-other' and not others_:
+                        mid = 'copy'
+                    if mid is not None:
+                        import copy as _copy
+                        import pickle as _pickle
+                        try:
+                            if mid == 'copy':
+                                res = res.copy()
+                            elif mid == 'deepcopy':
+                                res = _copy.deepcopy(res)
+                            elif mid == 'pickle':
+                                res = _pickle.loads(_pickle.dumps(res))
+                            elif mid == 'fullslice':
+                                res = res[:]
+                            elif mid == 'newaxis-squeeze':
+                                res = res.newaxis('nq', pos=rng.randint(0, res.ndim)).squeeze('nq')
+                            else:
+                                od = rng.choice(others_)
+                                res = res.take({od: res.axes[od].values.tolist()})
+                            ctx.outcomes['unflatten-after-' + mid] += 1
+                        except Exception as mexc:
+                            ctx.v(ID, "unflatten:mid-step-raised", "%s on the result of %s raised %s: %s" % (mid, label, type(mexc).__name__, str(mexc)[:120]))
+                            continue
+                        label = label + " then " + mid
                     u, uexc = ctx.call("(%s).unflatten()" % label, lambda res=res: res.unflatten(), operands=(res, a), meta='carry')
                     ctx.outcomes['unflatten-roundtrips'] += 1
                     if uexc is not None:
